@@ -380,3 +380,24 @@ def step_wiring_rule(ctx, repo, rule):
             continue
         ok, st, why = _foreach_call(fi, method, tis[0].targets[0].id)
         ctx.check(ok, rule, fi, st if st is not None else fi.node, "%s: %s(ti) for every compartment of every population" % (q, method), "%s: %s - compartments left out keep their preallocated NaN (or stale flows), so people vanish from the trajectory" % (q, why), stmt_text="foreach:%s.%s" % (q, method))
+
+
+def process_prologue(ctx, repo, rule):
+    ctx.rule(rule, "Model.process prepares every run the same way: self._set_exec_order() and then self._update_program_cache() are called unconditionally before the first update_pars / flush_junctions / update_links (the index-0 evaluation uses this run's execution order and knows whether programs are active), whatever happened to the object before (copied, unpickled, edited after build)")
+    fi = repo.func("model", "Model.process")
+    me = K.self_name(fi)
+    cfg = K.cfg(repo, fi)
+
+    def calls(name):
+        return [s for s in own_nodes(fi.node) if isinstance(s, ast.Expr) and isinstance(s.value, ast.Call) and ast.unparse(s.value.func) == "%s.%s" % (me, name)]
+
+    first_use = [s for nm in ("update_pars", "flush_junctions", "update_links", "update_comps") for s in calls(nm)]
+    prev = None
+    for nm, why in (("_set_exec_order", "a model that was edited after build(), or copied / unpickled, runs with a stale or differently computed execution order, so a copy no longer reproduces the original"), ("_update_program_cache", "at the first index programs_active is still unset, so a run started inside the program period (a restart from a saved state) evaluates its first step without the programs")):
+        cs = calls(nm)
+        ok = len(cs) == 1 and not [g for g in guards_of(cs[0]) if not (isinstance(g[0], ast.Compare) and "_t_index == 0" in ast.unparse(g[0]) and g[1])]
+        ok = ok and all(cfg.dominates(cs[0], u) for u in first_use) and bool(first_use)
+        if ok and prev is not None:
+            ok = cfg.dominates(prev, cs[0])
+        ctx.check(ok, rule, fi, cs[0] if cs else fi.node, "%s() unconditionally before the first evaluation" % nm, "Model.process does not call self.%s() unconditionally before the first update_pars / flush_junctions / update_links: %s" % (nm, why), stmt_text="prologue:%s" % nm)
+        prev = cs[0] if cs else None
